@@ -1,10 +1,10 @@
 package keeper
 
 import (
+	"cosmossdk.io/core/comet"
 	"cosmossdk.io/math"
 	abci "github.com/cometbft/cometbft/abci/types"
 	cmtproto "github.com/cometbft/cometbft/proto/tendermint/types"
-	"cosmossdk.io/core/comet"
 	"github.com/ethereum/go-ethereum/core/types/goattypes"
 	"github.com/goatnetwork/goat/x/locking/types"
 	"github.com/goatnetwork/goat/zzverif/vrt"
